@@ -28,6 +28,7 @@ import (
 	"strings"
 	"sync"
 	"sync/atomic"
+	"time"
 
 	"github.com/pingcap/kvproto/pkg/metapb"
 	"github.com/tikv/pd/server/core"
@@ -47,7 +48,8 @@ type world struct {
 	nextRule int
 	nextPeer uint64
 	fits     int
-	variants bool // label values / keys come in letter-case variants, prefixes and empty strings
+	lastFit  map[uint64]*placement.RegionFit // last verified fit per region id (possibly under an older rule set)
+	variants bool                            // label values / keys come in letter-case variants, prefixes and empty strings
 }
 
 func (w *world) step(f string, a ...interface{}) {
@@ -176,7 +178,75 @@ func describeRegion(r *core.RegionInfo) string {
 
 // fit calls the real entry point on the long-lived objects and judges the result.
 func (w *world) fit(x *runner, lc *local, ri int, tag, suffix string) (*placement.RegionFit, *outcome) {
-	return w.fitRegion(x, lc, w.regions[ri], tag, suffix)
+	got, o := w.fitRegion(x, lc, w.regions[ri], tag, suffix)
+	if got != nil && o != nil && o.Skip == "" && len(o.Findings) == 0 {
+		id := w.regions[ri].GetID()
+		if w.lastFit == nil {
+			w.lastFit = map[uint64]*placement.RegionFit{}
+		}
+		if old := w.lastFit[id]; old != nil && old != got {
+			w.compareAcross(x, lc, old, got)
+		}
+		w.lastFit[id] = got
+	}
+	return got, o
+}
+
+func sameRules(a, b *placement.RegionFit) bool {
+	if len(a.RuleFits) != len(b.RuleFits) {
+		return false
+	}
+	for i := range a.RuleFits {
+		if a.RuleFits[i].Rule != b.RuleFits[i].Rule {
+			return false
+		}
+	}
+	return true
+}
+
+// compareAcross: CompareRegionFit on two verified fits of one region taken at different moments of
+// the history (other rule set, other store labels, other peers) — what a filter holding an old fit
+// does. The fits are compared structurally (counts, mismatches, scores, orphans), never as strings.
+// Same number of rules: the documented order decides, position by position. Different numbers: the
+// documentation says nothing; only antisymmetry is required.
+func (w *world) compareAcross(x *runner, lc *local, a, b *placement.RegionFit) {
+	var c1, c2 int
+	var pan interface{}
+	func() {
+		defer func() { pan = recover() }()
+		c1, c2 = placement.CompareRegionFit(a, b), placement.CompareRegionFit(b, a)
+	}()
+	wit := func() map[string]interface{} {
+		return map[string]interface{}{"world_seed": w.seed, "kind": "history_fit", "steps": w.steps}
+	}
+	kind := "same-rule-objects"
+	if !sameRules(a, b) {
+		kind = "different-rule-sets"
+	}
+	lc.count("comparator_pairs_across_history:"+kind, 1)
+	switch {
+	case pan != nil:
+		x.r.Violation("panic:CompareRegionFit:"+kind, fmt.Sprintf("CompareRegionFit panicked: %v", pan), wit())
+	case c1 != -c2:
+		x.r.Violation("compare-region-fit:not-antisymmetric:"+kind, fmt.Sprintf("CompareRegionFit(a,b)=%d, (b,a)=%d: a %s ; b %s", c1, c2, vecString(reported(a)), vecString(reported(b))), wit())
+	case len(a.RuleFits) == len(b.RuleFits):
+		if want, where := cmpVec(reported(a), reported(b)); want != c1 {
+			x.r.Violation("compare-region-fit:disagrees-with-documented-order:"+kind, fmt.Sprintf("CompareRegionFit(a,b)=%d, documented order says %d (%s): a %s ; b %s", c1, want, where, vecString(reported(a)), vecString(reported(b))), wit())
+		}
+	}
+}
+
+// reload: a new RuleManager over the same storage, as after a restart: the served rule objects are
+// now the ones decoded from the persisted JSON.
+func (w *world) reload() bool {
+	m := placement.NewRuleManager(core.NewStorage(w.kv), nil)
+	if err := m.Initialize(3, []string{"zone", "host"}); err != nil {
+		w.step("reload failed: %v", err)
+		return false
+	}
+	w.mgr = m
+	w.step("restart: new RuleManager over the same storage, Initialize -> serves %s", visible(m.GetAllRules()))
+	return true
 }
 
 func (w *world) fitRegion(x *runner, lc *local, region *core.RegionInfo, tag, suffix string) (*placement.RegionFit, *outcome) {
@@ -480,9 +550,13 @@ func (w *world) runSequential(x *runner, lc *local, steps int) {
 			if fail {
 				lc.count("history_rule_updates_with_storage_write_failure", 1)
 			}
-		case v < 8:
+		case v < 7:
 			w.evolveRegion(w.rng.Intn(len(w.regions)))
 			lc.count("history_region_clone_updates", 1)
+		case v < 8:
+			if w.reload() {
+				lc.count("history_rule_manager_reloads", 1)
+			}
 		default:
 			w.filterPattern(x, lc, w.rng.Intn(len(w.regions)))
 			lc.count("history_filter_patterns", 1)
@@ -528,6 +602,86 @@ func specOfStore(s *core.StoreInfo) *StoreSpec {
 		sp.Labels = append(sp.Labels, Label{l.GetKey(), l.GetValue()})
 	}
 	return sp
+}
+
+// runParkedWriter: the third-party pattern. A writer (SetRule) is parked inside its storage write
+// while it holds the manager's write lock; several readers queue on that lock; the writer is then
+// released and the readers run together on the freshly published rule objects. Only the storage write
+// is gated (readers perform no storage operation). The short sleep only lets the readers reach the
+// lock; no verdict depends on it.
+func (w *world) runParkedWriter(x *runner, readers int) {
+	parked := make(chan struct{})
+	release := make(chan struct{})
+	var once sync.Once
+	w.kv.Gate = func(kind, key string) {
+		if kind == "Save" || kind == "Remove" {
+			once.Do(func() { close(parked); <-release })
+		}
+	}
+	wdone := make(chan string, 1)
+	next := 900
+	rng := rand.New(rand.NewSource(w.rng.Int63()))
+	go func() { wdone <- updateRules(rng, w.mgr, w.kv, &next, false) }()
+	var wlog string
+	select {
+	case <-parked:
+	case wlog = <-wdone: // the update was rejected before any storage write
+	}
+	var wg sync.WaitGroup
+	regions := append([]*core.RegionInfo(nil), w.regions...)
+	base := append([]string(nil), w.steps...)
+	for rd := 0; rd < readers; rd++ {
+		wg.Add(1)
+		go func(rd int) {
+			defer wg.Done()
+			lc := newLocal()
+			defer lc.flush(x.r)
+			region := regions[rd%len(regions)]
+			view := &storeView{bc: w.bc, got: map[uint64]*core.StoreInfo{}}
+			var got *placement.RegionFit
+			var pan interface{}
+			func() {
+				defer func() { pan = recover() }()
+				got = w.mgr.FitRegion(view, region)
+			}()
+			lc.count("concurrent_fits:queued-behind-parked-writer", 1)
+			witness := func() map[string]interface{} {
+				return map[string]interface{}{"world_seed": w.seed, "kind": "concurrent_parked-writer", "fitted": describeRegion(region), "history_before": base}
+			}
+			seed := w.seed + uint64(rd)*31
+			if pan != nil || got == nil {
+				if pan != nil {
+					c, _ := visibleCase("history/parked", nil, region, nil)
+					x.judged(lc, "concurrent_parked-writer", c, &outcome{Findings: []finding{{"panic:FitRegion", fmt.Sprintf("%v", pan)}}}, ":only-under-parked-writer", seed, witness)
+				}
+				return
+			}
+			var rules []*placement.Rule
+			for _, rf := range got.RuleFits {
+				if rf == nil || rf.Rule == nil {
+					return
+				}
+				rules = append(rules, rf.Rule)
+			}
+			var stores []*core.StoreInfo
+			for _, p := range region.GetPeers() {
+				if s := view.got[p.GetStoreId()]; s != nil {
+					stores = append(stores, s)
+				}
+			}
+			if c, peers := visibleCase("history/parked", stores, region, rules); c != nil {
+				x.judged(lc, "concurrent_parked-writer", c, judgeGot(c, seed, got, peers, rules), ":only-under-parked-writer", seed, witness)
+			}
+		}(rd)
+	}
+	if wlog == "" {
+		time.Sleep(2 * time.Millisecond) // let the readers queue on the lock
+		close(release)
+		wlog = <-wdone
+	}
+	wg.Wait()
+	w.kv.Gate = nil
+	w.step("[parked writer + %d queued readers] %s", readers, wlog)
 }
 
 // runConcurrent: readers fit on the shared objects while (kind) nothing / the rules / the store
